@@ -93,7 +93,7 @@ def gen_case(rng, tier, index, programs_only=False):
          "allow_undef": rng.random() < 0.3, "lines": [],
          "bintype": rng.choice([["DYN"], ["DYN"], ["DYN", "PIE"],
                                 ["DYN", "SHARED"], ["PIE", "DYN"]])}
-    v = vocab.VOCAB[isa]
+    v = {k: e for k, e in vocab.VOCAB[isa].items() if not e.get("rw_only")}
     n = rng.choice([1, 2, 3, 5, 8, 12, 20, 40])
     labels = []
     lines = c["lines"]
